@@ -255,3 +255,37 @@ def optional_metadata_rule(repo, res, RULE="TAB-XSD"):
         except Undecided as x:
             raise AnalysisError("Solution.__init__ [%s]: %s" % (label, x))
         res.check(RULE, "Solution(..) [%s]: optional meta data is kept as given (None stays None)" % label, not bad, sol.mod, init, "Solution.__init__ [%s]: %s" % (label, "; ".join(bad)), "a solution read from a file without this attribute carries a value that was never in the file", qualname="Solution.__init__")
+
+
+def number_text_rule(repo, res, RULE="NUMFMT"):
+    """_create_sub_element(name, value), evaluated for a float and for an integer value: the text of the element is the
+    text of the value itself (str / repr of the value, through float / np.float64 at most) — nothing rounded, cut or
+    formatted to a number of digits."""
+    from ..strdom import ClassRef, ElemV, Ev, Undecided, _Raise, show
+
+    SO = "commonroad/common/solution.py"
+    wr = repo.cls(SO, "CommonRoadSolutionWriter")
+    fn = wr.methods.get("_create_sub_element")
+    if fn is None:
+        raise AnalysisError("CommonRoadSolutionWriter._create_sub_element missing")
+    qn = "CommonRoadSolutionWriter._create_sub_element"
+    for kind in ("float", "int"):
+        v = Sym("value", kind)
+        ev = Ev(repo)
+        ev.pure_modules = {"math"}
+        ident = lambda a, k: a[0]
+        for f in ("float64", "float_", "double", "asarray"):
+            ev.model_calls["np.%s" % f] = ev.model_calls["numpy.%s" % f] = ident
+        bad = None
+        try:
+            node = ev.call_fn(ev.bind(fn, wr, None, via_class=ClassRef(wr)), [Str.lit("x"), v], {}, fn)
+            text = node.text if isinstance(node, ElemV) else None
+            if not isinstance(text, Str):
+                bad = "gives %s" % show(node)
+            elif [p for p in text.pieces] != [("sym", v)]:
+                bad = "writes %s" % show(text)
+        except _Raise as x:
+            bad = "raises %s" % x.what
+        except Undecided as x:
+            raise AnalysisError("%s [%s value]: %s" % (qn, kind, x))
+        res.check(RULE, "%s [%s value]: the text is the shortest round-trip text of the value" % (qn, kind), bad is None, wr.mod, fn, "%s [%s value] %s" % (qn, kind, bad), "values are rounded or formatted with limited precision: read-back values are not bit-identical", qualname=qn)
